@@ -241,7 +241,7 @@ class GroupValidator:
             prev_child = child
 
     def _check_for_duplicate_groups(self, original_group):
-        sorted_group = original_group._sorted()
+        sorted_group = original_group._sorted(canonical=True)
         validation_issues = []
         self._check_for_duplicate_groups_recursive(sorted_group, validation_issues)
         return validation_issues
